@@ -1,21 +1,25 @@
 /- history interpreter over the L0 document model (prototype) -/
 import AJ.Model.DL
+import AJ.Model.Conv
+import AJ.Model.JSer
+import AJ.Model.MD
 namespace DH
 open DL JD
 
 structure Ref where
   doc : Option Nat := none
   loc : Option Loc := none
-deriving Inhabited
+deriving Inhabited, BEq
 
 structure W where
   docs : Array Doc
   refs : Array Ref
   log : List String := []     -- newest first, already tagged
+  dead : Array (Option Ref) := Array.replicate 10 none   -- ghost: binding of a reference when it was seen dangling (used by `liveq` only)
   geo : PL.Geo := ⟨256, 4, 4, 16, 16⟩
   strOverhead : Nat := 15
 
-def LIT : List (List Byte) := ["lit0".toUTF8.toList, "lit1".toUTF8.toList, [], "a".toUTF8.toList, "key".toUTF8.toList]
+def LIT : List (List Byte) := ["lit0".toUTF8.toList, "lit1".toUTF8.toList, [], "a".toUTF8.toList, "key".toUTF8.toList, "123".toUTF8.toList, "-4.5e2".toUTF8.toList]
 
 def newDocG (g : PL.Geo) (so : Nat) (alloc : Nat) : Doc := { g := g, alloc := alloc, pl := PL.init g, strOverhead := so }
 def W.initG (g : PL.Geo) (so : Nat) : W := { docs := #[newDocG g so 0, newDocG g so 1, newDocG g so 2], refs := Array.replicate 10 {}, geo := g, strOverhead := so }
@@ -46,11 +50,14 @@ def parseArg (kind arg : String) : Option Arg :=
   | "f" => some (.f32 (hexToNat arg))
   | "d" => some (.f64 (hexToNat arg))
   | "sl" => some (.strLinked (LIT[arg.toNat!]!))
-  | "sc" => some (.strCopied (unhex arg))
+  | "sc" | "sv" | "sj" => some (.strCopied (unhex arg))
+  | "sp" => some (.strCopied ((unhex arg).takeWhile (· != 0)))      -- char*: zero-terminated
+  | "sjl" => some (.strLinked ((unhex arg).takeWhile (· != 0)))
   | "raw" => some (.raw (unhex arg))
   | _ => none
 
-def isVoidKind (k : String) : Bool := k == "null" || k == "sl" || k == "sc" || k == "raw" || k == "ref" || k == "doc"
+def isVoidKind (k : String) : Bool :=
+  k == "null" || k == "sl" || k == "sc" || k == "sv" || k == "sp" || k == "sj" || k == "sjl" || k == "raw" || k == "ref" || k == "doc"
 
 /-- perform `set` of (kind,arg) on location l of document di (bound). -/
 def W.setAt (w : W) (di : Nat) (l : Loc) (kind arg : String) : Bool × W :=
@@ -82,6 +89,20 @@ def W.unboundResult (w : W) (r : Ref) (kind : String) : Bool :=
 
 def step (w : W) (ws : List String) : String × W :=
   match ws with
+  | "obs" :: rs =>
+    let ds := (w.docs.toList.map (fun (d : Doc) => s!"{d.show d.root} n={d.nesting d.root} z={d.size d.root} o={if d.overflowed then 1 else 0} ; "))
+    let rs := rs.map (fun r =>
+      let s := w.refs[r.toNat!]!
+      match s.doc, s.loc with
+      | some di, some l => let d : Doc := w.docs[di]!; s!"r{r}={d.show (d.get l)} z={d.size (d.get l)} n={d.nesting (d.get l)} "
+      | _, _ => s!"r{r}=? z=0 n=0 ")
+    (String.join ds ++ String.join rs, w)
+  | ["failat", d, k] =>
+    let di := d.toNat!; let doc : Doc := w.docs[di]!
+    ("", { w with docs := w.docs.set! di { doc with pl := { doc.pl with failAt := (doc.pl.calls + k.toNat!) :: doc.pl.failAt } } })
+  | ["failfrom", d, k] =>
+    let di := d.toNat!; let doc : Doc := w.docs[di]!
+    ("", { w with docs := w.docs.set! di { doc with pl := { doc.pl with failFrom := some (doc.pl.calls + k.toNat!) } } })
   | ["reset"] => ("", W.initG w.geo w.strOverhead)
   | ["geo", a, b, c, so] => ("", W.initG ⟨a.toNat!, b.toNat!, c.toNat!, 16, 16⟩ so.toNat!)
   | ["root", r, d] => ("", { w with refs := w.refs.set! r.toNat! ⟨some d.toNat!, some .root⟩ })
@@ -227,13 +248,60 @@ def step (w : W) (ws : List String) : String × W :=
   | ["shrink", d] =>
     let di := d.toNat!; let doc : Doc := w.docs[di]!
     ("", { w with docs := w.docs.set! di { doc with pl := PL.shrink doc.g doc.pl } })
-  | "obs" :: rs =>
-    let ds := (w.docs.toList.map (fun (d : Doc) => s!"{d.show d.root} n={d.nesting d.root} z={d.size d.root} ; "))
-    let rs := rs.map (fun r =>
-      let s := w.refs[r.toNat!]!
-      match s.doc, s.loc with
-      | some di, some l => let d : Doc := w.docs[di]!; s!"r{r}={d.show (d.get l)} z={d.size (d.get l)} n={d.nesting (d.get l)} "
-      | _, _ => s!"r{r}=? z=0 n=0 ")
-    (String.join ds ++ String.join rs, w)
+  | ["nofail", d] =>
+    let di := d.toNat!; let doc : Doc := w.docs[di]!
+    ("", { w with docs := w.docs.set! di { doc with pl := { doc.pl with failAt := [], failFrom := none } } })
+  | ["liveq"] =>
+    -- which references may still be used: unbound (u), root of document d (R<d>), reachable slot of document d (S<d>), dangling (x).
+    -- A reference seen dangling stays dangling until it is bound to something else (its slot id may be reused, the C++ pointer is stale).
+    let reach := w.docs.toList.map (fun (d : Doc) => d.reach d.root)
+    let isDangling (r : Ref) : Bool :=
+      match r.doc, r.loc with
+      | some di, some (.slot id) => !((reach.getD di []).contains id)
+      | _, _ => false
+    let dead := (List.range 10).map (fun i =>
+      let r := w.refs[i]!
+      match w.dead[i]! with
+      | some old => if old == r then some old else (if isDangling r then some r else none)
+      | none => if isDangling r then some r else none)
+    let one (i : Nat) : String :=
+      let r := w.refs[i]!
+      if (dead.getD i none).isSome then "x" else
+      match r.doc, r.loc with
+      | some di, some .root => s!"R{di}"
+      | some di, some (.slot _) => s!"S{di}"
+      | some di, none => s!"u{di}"
+      | none, _ => "u"
+    (" ".intercalate ((List.range 10).map one), { w with dead := dead.toArray })
+  | ["ledger"] =>
+    -- live blocks per allocator: pools that hold a block, a heap-allocated pool table, string nodes
+    let count (a : Nat) : Nat := w.docs.toList.foldl (fun acc (d : Doc) =>
+      if d.alloc == a then acc + (d.pl.pools.filter (·.hasBlock)).length + (if d.pl.tableHeap then 1 else 0) + d.strings.length else acc) 0
+    (s!"L0={count 0} L1={count 1} L2={count 2} ", w)
+  | ["hser", d] =>
+    let doc : Doc := w.docs[d.toNat!]!
+    let v := doc.toVal doc.root
+    let j := JSer.compact {} v; let m := MD.ser v
+    (s!"{if j.isEmpty then "-" else hexBytes j} {if m.isEmpty then "-" else hexBytes m}", w)
+  | ["obsx", r] =>
+    let s := w.refs[r.toNat!]!
+    let (v, bound) : Val × Bool := match s.doc, s.loc with
+      | some di, some l => let d : Doc := w.docs[di]!; (d.toVal (d.get l), true)
+      | _, _ => (.null, false)
+    let _ := bound
+    let gi (t : Conv.IT) : String := match Conv.asInt {} v t with | some z => toString z | none => "UB"
+    let f := match Conv.asFloatBits {} v SF.b32 with | some b => hexNat b 8 | none => "UB"
+    let dd := match Conv.asFloatBits {} v SF.b64 with | some b => hexNat b 16 | none => "UB"
+    let asBool : Bool := match v with
+      | .null => false | .bool b => b
+      | .num (.uint n) => n != 0 | .num (.sint z) => z != 0
+      | .num (.f32 b) => b % 2^31 != 0 | .num (.f64 b) => b % 2^63 != 0
+      | _ => true
+    let b (x : Bool) := if x then "1" else "0"
+    let isStr := match v with | .str _ => true | _ => false
+    let isb := b (Conv.isIntV v Conv.i64) ++ b (Conv.isFloatV v) ++ b (match v with | .bool _ => true | _ => false) ++ b isStr ++ b isStr ++
+               b (match v with | .arr _ => true | _ => false) ++ b (match v with | .obj _ => true | _ => false) ++ b (match v with | .null => true | _ => false)
+    let str := match v with | .str x => "S" ++ hexBytes x | _ => "null"
+    (s!"i64={gi Conv.i64} u64={gi Conv.u64} i8={gi Conv.i8} f={f} d={dd} b={b asBool} is={isb} str={str}", w)
   | _ => ("bad-op", w)
 end DH
